@@ -69,6 +69,17 @@ def handleReport (j : Json) : Json :=
          ("total", .num (categoryViewTotal rows)), ("count", .num (categoryViewCount rows : Int)),
          ("sums", .arr ((categoryViewSums rows).map fun kv => .arr #[cpsJson kv.1, .num kv.2]).toArray),
          ("analysed", .num (analysedTotal rows)), ("distinct", .bool (idsDistinct rows))]
+  | "alloc" =>
+    -- `make_merchant_id` called on `names` in this order; optional `rows` (same order as the distinct names) → category view
+    let names := (jarr j "names").map cpsOf
+    let tbl := allocIds names
+    let data := (jarr j "rows").map rowOf
+    let rows := (tbl.zip data).map fun (p, r) => { r with id := p.2 }
+    obj [("table", .arr (tbl.map fun p => .arr #[cpsJson p.1, cpsJson p.2]).toArray),
+         ("distinct", .bool (idsDistinct rows)),
+         ("kept", .arr ((allMerchants rows).map fun kv => cpsJson kv.2.id).toArray),
+         ("total", .num (categoryViewTotal rows)), ("analysed", .num (analysedTotal rows)),
+         ("sums", .arr ((categoryViewSums rows).map fun kv => .arr #[cpsJson kv.1, .num kv.2]).toArray)]
   | "figures" =>
     let ts := (jarr j "txns").map ftxnOf
     obj [("flow_income", .num (flowIncome ts)), ("flow_spending", .num (flowSpending ts)),
